@@ -20,7 +20,8 @@ CHECKS = {
     "C10": "engine", "C11": "engine", "C12": "engine",
     "C06": "engine", "C07": "engine", "C08": "engine", "C09": "engine", "C13": "engine",
     "C01": "engine", "C02": "engine", "C03": "engine", "C04": "engine", "C05": "engine", "C14": "engine", "C15": "engine",
-    "C41": "engine",
+    "C41": "engine", "C16": "engine", "C36": "engine",
+    "C33": "webpush",
 }
 
 MC = "model_checking"
